@@ -22,11 +22,12 @@ RULE = (
     'configurations = (geometry, energy unit, tof unit, L1 unit, L2 unit, energy dtype, tof dtype) drawn from the '
     'grid {meV,eV,J,ueV} x {ns,us,ms,s} x {mm,cm,m,km,angstrom}^2 x {f64,f32,i64}^2 x {direct,indirect}; per '
     'configuration Ei, Ef log-uniform in 1e-3..1e4 meV and L1, L2 log-uniform in 0.1..1e3 m, expressed in the '
-    'configuration units and rounded to the dtype; arrival times are (a) the simulated neutron '
+    'configuration units and rounded to the dtype; L1 and L2 are float64 (as the beamline graph produces them) or float32 '
+    'operands, independently;  arrival times are (a) the simulated neutron '
     't=L1/v(Ei)+L2/v(Ef) rounded to the tof dtype, (b) the code\'s own fl(t0) and its +-1,2,3,17 neighbours in the '
     'tof dtype, (c) log-uniform 1e-7..1e3 s, (d) zero and negative. A case is distinct by (configuration, operand '
     'bit patterns). Values are compared under the condition-aware tolerance eps*(max(E_fixed,E_var)+E_var*t0/|t-t0|) '
-    'with eps=1e-11 (all double) or 1e-5 (any single operand); NaN-ness, finiteness, unit and dtype exactly. '
+    'with eps=1e-11 (all double) or 1e-5 (any single-precision operand among energy, tof, L1, L2); NaN-ness, finiteness, unit and dtype exactly. '
     'Conservation against Ei-Ef is demanded when both legs are comparable (t0/(t-t0) <= 100), with the rounding of '
     'the constructed arrival time (2*u*E_var*t/(t-t0)) not charged to the kernel.'
 )
@@ -46,7 +47,8 @@ ASSUMPTIONS = [
 TRUSTED = [
     'modelled, not verified: scippneutron.conversion.tof._common_dtype, _energy_constant, _energy_transfer_t0, '
     'energy_transfer_direct_from_tof, energy_transfer_indirect_from_tof (lean/ScnVerif/Model/Inelastic.lean)',
-    'lengths are float64 in the model (as produced by the beamline graph); float32 lengths are not modelled',
+    'lengths: float64 and float32 operands are modelled (LenCast: astype(dtype) in t0, L**2 in the length\'s own precision '
+    'promoted to float64 in scale); integer lengths are not',
 ]
 LEVEL_TEXT = (
     'Lean 4 theorems over the reals about the executable model of the two inelastic kernels: for every positive '
@@ -58,8 +60,11 @@ LEVEL_TEXT = (
     'the Python kernels on every run.'
 )
 LEVEL_NOTE = (
-    'Rounding error of the Float instances is validated against an exact rational/decimal reference, not proved; '
-    'the float-spacing lemma assumes an unbounded exponent range.'
+    'Rounding: under the standard model (each + - * / with relative error <= u) the variable leg and the final '
+    'subtraction are proved to return Ei-Ef up to u(|Ei|+|Ef|) + (1+u)*5w/(1-5w)*E_var with the condition-aware level '
+    'w = (1+u)*(k u/(1-k u))*t0/(t-t0) + u (theorems direct/indirect_rounding_conservation, rounding_level_of_t0); that the '
+    'computed t0 and scale carry k <= 5 resp. <= 3 roundings, and the actual Float instances, are validated against an exact '
+    'rational/decimal reference; the float-spacing lemma assumes an unbounded exponent range.'
 )
 TECHNIQUE = 'Lean 4 proof over an executable carrier-generic model + bit-level model/implementation correspondence'
 
@@ -129,8 +134,9 @@ def out_dtype(eD: str, tD: str) -> str:
     return 'float32' if (eD == 'f32' and tD == 'f32') else 'float64'
 
 
-def eps_of(eD: str, tD: str) -> Fraction:
-    return EPS32 if 'f32' in (eD, tD) else EPS64
+def eps_of(*dtypes: str) -> Fraction:
+    """property tolerance: single precision as soon as any operand (energy, tof, L1, L2) is single precision"""
+    return EPS32 if 'f32' in dtypes else EPS64
 
 
 def u_of(d: str) -> Fraction:
@@ -161,20 +167,28 @@ def neighbours(x, d: str, k: int):
 # ---- configurations and cases ----------------------------------------------------------------
 
 class Cfg:
-    __slots__ = ('geom', 'uE', 'ut', 'u1', 'u2', 'eD', 'tD')
+    __slots__ = ('geom', 'uE', 'ut', 'u1', 'u2', 'eD', 'tD', 'l1D', 'l2D')
 
-    def __init__(self, geom, uE, ut, u1, u2, eD, tD):
+    def __init__(self, geom, uE, ut, u1, u2, eD, tD, l1D='f64', l2D='f64'):
         self.geom, self.uE, self.ut, self.u1, self.u2, self.eD, self.tD = geom, uE, ut, u1, u2, eD, tD
+        self.l1D, self.l2D = l1D, l2D   # dtypes of the lengths L1, L2 (float64 or float32)
 
     def key(self):
-        return (self.geom, self.uE, self.ut, self.u1, self.u2, self.eD, self.tD)
+        return (self.geom, self.uE, self.ut, self.u1, self.u2, self.eD, self.tD, self.l1D, self.l2D)
 
     def as_dict(self):
-        return dict(geom=self.geom, uE=self.uE, ut=self.ut, u1=self.u1, u2=self.u2, eD=self.eD, tD=self.tD)
+        return dict(geom=self.geom, uE=self.uE, ut=self.ut, u1=self.u1, u2=self.u2, eD=self.eD, tD=self.tD,
+                    l1D=self.l1D, l2D=self.l2D)
 
     @staticmethod
     def from_dict(d):
-        return Cfg(d['geom'], d['uE'], d['ut'], d['u1'], d['u2'], d['eD'], d['tD'])
+        return Cfg(d['geom'], d['uE'], d['ut'], d['u1'], d['u2'], d['eD'], d['tD'], d.get('l1D', 'f64'), d.get('l2D', 'f64'))
+
+    def with_geom(self, geom):
+        return Cfg(geom, self.uE, self.ut, self.u1, self.u2, self.eD, self.tD, self.l1D, self.l2D)
+
+    def len_code(self):
+        return ('s' if self.l1D == 'f32' else 'd') + ('s' if self.l2D == 'f32' else 'd')
 
     def scales(self):
         return scale(self.uE, 'J'), scale(self.ut, 's'), scale(self.u1, 'm'), scale(self.u2, 'm')
@@ -191,7 +205,9 @@ def random_cfg(rng, dtypes=('f64', 'f32'), allow_int=False):
             eD = 'i64'
         if ut in ('ns',):
             tD = 'i64'
-    return Cfg(geom, uE, ut, u1, u2, eD, tD)
+    # lengths: float64 as produced by the beamline graph (weighted), or float32 operands
+    l1D, l2D = rng.choice(['f64', 'f64', 'f32']), rng.choice(['f64', 'f64', 'f32'])
+    return Cfg(geom, uE, ut, u1, u2, eD, tD, l1D, l2D)
 
 
 def np_t0(cfg: Cfg, c: float, E, L: float):
@@ -217,8 +233,8 @@ def gen_cases(rng, cfg: Cfg, n: int, kinds=('neutron', 'boundary', 'random', 'no
         L1_m, L2_m = lu(rng, 0.1, 1e3), lu(rng, 0.1, 1e3)
         Ei = cast(Ei_meV * float(meV / sE), cfg.eD)
         Ef = cast(Ef_meV * float(meV / sE), cfg.eD)
-        L1 = np.float64(L1_m / float(s1))
-        L2 = np.float64(L2_m / float(s2))
+        L1 = NP[cfg.l1D](L1_m / float(s1))
+        L2 = NP[cfg.l2D](L2_m / float(s2))
         t1 = D(Fraction(float(L1)) * s1) / speed(Fraction(float(Ei)) * sE)
         t2 = D(Fraction(float(L2)) * s2) / speed(Fraction(float(Ef)) * sE)
         ratio = float(t1 / t2)
@@ -264,8 +280,8 @@ def run_kernel(cfg: Cfg, cases):
         return sc.array(dims=['x'], values=np.array(vals, dtype=NP[d]), unit=unit, dtype=SC[d])
 
     tof = arr([c['t'] for c in cases], cfg.tD, cfg.ut)
-    L1 = arr([c['L1'] for c in cases], 'f64', cfg.u1)
-    L2 = arr([c['L2'] for c in cases], 'f64', cfg.u2)
+    L1 = arr([c['L1'] for c in cases], cfg.l1D, cfg.u1)
+    L2 = arr([c['L2'] for c in cases], cfg.l2D, cfg.u2)
     try:
         if cfg.geom == 'direct':
             E = arr([c['Ei'] for c in cases], cfg.eD, cfg.uE)
@@ -280,7 +296,7 @@ def run_kernel(cfg: Cfg, cases):
 
 def model_line(cfg: Cfg, c) -> str:
     E = c['Ei'] if cfg.geom == 'direct' else c['Ef']
-    return (f"c05.{cfg.geom} {mode_of(cfg.eD, cfg.tD)} {bits(c['c1'])} {bits(c['c2'])} {bits(c['t'])} "
+    return (f"c05.{cfg.geom} {mode_of(cfg.eD, cfg.tD)} {cfg.len_code()} {bits(c['c1'])} {bits(c['c2'])} {bits(c['t'])} "
             f"{bits(c['L1'])} {bits(c['L2'])} {bits(E)}")
 
 
@@ -294,7 +310,7 @@ def sample_of(cfg: Cfg, c, extra=None):
 
 def case_from_sample(w):
     cfg = Cfg.from_dict(w)
-    c = dict(kind=w.get('kind', 'replay'), L1=np.float64(unbits(w['L1'])), L2=np.float64(unbits(w['L2'])),
+    c = dict(kind=w.get('kind', 'replay'), L1=NP[cfg.l1D](unbits(w['L1'])), L2=NP[cfg.l2D](unbits(w['L2'])),
              Ei=NP[cfg.eD](unbits(w['Ei'])), Ef=NP[cfg.eD](unbits(w['Ef'])), t=NP[cfg.tD](unbits(w['t'])),
              c1=kernel_const(cfg.uE, cfg.ut, cfg.u1), c2=kernel_const(cfg.uE, cfg.ut, cfg.u2))
     return cfg, c
@@ -342,7 +358,7 @@ def reference(cfg: Cfg, c) -> Ref:
 
 
 def tolerance(cfg: Cfg, ref: Ref) -> Decimal:
-    eps = D(eps_of(cfg.eD, cfg.tD))
+    eps = D(eps_of(cfg.eD, cfg.tD, cfg.l1D, cfg.l2D))
     return eps * (max(D(ref.Efix), ref.Evar) + ref.Evar * ref.amp)
 
 
@@ -412,7 +428,7 @@ def _judge(cfg: Cfg, c, impl: float, dtype: str, unit_ok: bool):
 def _close(cfg: Cfg, c, impl: float, model: float) -> bool:
     """condition-aware comparison of two finite results (float arithmetic is enough here: the bound
     is orders of magnitude above rounding noise of its own evaluation)"""
-    eps = float(eps_of(cfg.eD, cfg.tD))
+    eps = float(eps_of(cfg.eD, cfg.tD, cfg.l1D, cfg.l2D))
     E, L, cc, Lv, cv = ((c['Ei'], c['L1'], c['c1'], c['L2'], c['c2']) if cfg.geom == 'direct'
                         else (c['Ef'], c['L2'], c['c2'], c['L1'], c['c1']))
     t0 = float(L) * math.sqrt(cc / float(E))
@@ -459,6 +475,8 @@ def correspond(ctx):
     dl = [f'c05.dtype {a} {b}' for a in names for b in names]
     for line, o in zip(dl, ctx.driver(dl)):
         ctx.case(line, True)
+    dl4 = [f'c05.dtype4 {a} {b} {c} {d}' for a in names for b in names for c in ('f64', 'f32') for d in ('f64', 'f32')]
+    dtype4_model = dict(zip(dl4, ctx.driver(dl4)))
     # kernels
     ncfg = ctx.n(600, 14000)
     per = ctx.n(40, 60)
@@ -477,12 +495,13 @@ def correspond(ctx):
         mouts = outs[pos:pos + len(cases)]
         pos += len(cases)
         ctx.count(f'cfg:{cfg.geom}:{cfg.eD}/{cfg.tD}')
+        ctx.count(f'lengths:{cfg.l1D}/{cfg.l2D}')
         ctx.count(f'units:{cfg.uE}/{cfg.ut}')
         if isinstance(res, str):
             ctx.disagree(cfg.as_dict(), res, 'ok', 'kernel raised on a supported configuration')
             continue
         vals, dtype, unit_ok, sizes = res
-        exp_dtype = {'f64': 'float64', 'f32': 'float32'}[dtype_model[f'c05.dtype {cfg.eD} {cfg.tD}'].split()[0]]
+        exp_dtype = {'f64': 'float64', 'f32': 'float32'}[dtype4_model[f'c05.dtype4 {cfg.eD} {cfg.tD} {cfg.l1D} {cfg.l2D}']]
         if dtype != exp_dtype or not unit_ok or sizes != {'x': len(cases)}:
             ctx.disagree(cfg.as_dict(), [dtype, unit_ok, sizes], [exp_dtype, True, {'x': len(cases)}], 'dtype / unit / shape of the result')
         for c, v, mo in zip(cases, vals, mouts):
@@ -527,7 +546,7 @@ def _oracle_kernels(ctx, ncfg, per):
         base = gen_cases(rng, cfg0, per, kinds=('neutron', 'neutron', 'boundary', 'random', 'nonpos'), comparable=rng.random() < 0.7)
         # the same neutrons through both kernels
         for geom in ('direct', 'indirect'):
-            cfg = Cfg(geom, cfg0.uE, cfg0.ut, cfg0.u1, cfg0.u2, cfg0.eD, cfg0.tD)
+            cfg = cfg0.with_geom(geom)
             cases = [dict(c) for c in base]
             if geom != cfg0.geom:
                 # boundary cases are placed for cfg0's geometry; re-place them for this one
@@ -566,7 +585,7 @@ def _oracle_ladders(ctx, n):
         if t0_fn is not None:
             try:
                 t0_code = float(t0_fn(sc.scalar(E, unit=cfg.uE, dtype=SC[cfg.eD]), sc.scalar(NP[cfg.tD](1), unit=cfg.ut, dtype=SC[cfg.tD]),
-                                      sc.scalar(float(L), unit=uL)).value)
+                                      sc.scalar(L, unit=uL, dtype=SC[cfg.l1D if cfg.geom == 'direct' else cfg.l2D])).value)
             except Exception:  # noqa: BLE001
                 t0_code = None
         if t0_code is None or not math.isfinite(t0_code):
@@ -602,7 +621,7 @@ def _oracle_convert(ctx, n):
         ns, nt = rng.randint(1, 3), rng.randint(2, 6)
         use_pos = rng.random() < 0.5
         if use_pos:
-            cfg = Cfg(cfg.geom, cfg.uE, cfg.ut, 'm', 'm', cfg.eD, cfg.tD)
+            cfg = Cfg(cfg.geom, cfg.uE, cfg.ut, 'm', 'm', cfg.eD, cfg.tD)  # lengths come out of the graph as float64
         rows = [gen_cases(rng, cfg, nt, kinds=('neutron', 'neutron', 'random', 'nonpos'), comparable=True) for _ in range(ns)]
         # one L1 for the instrument; per-spectrum L2 (and Ef for indirect geometry); tof is 2-d so that every
         # element is a neutron of its own
